@@ -37,6 +37,10 @@ CHECKS = {
          "metrics: vectors of length 1..2 (quick) / 1..3 (thorough); models: 3 training samples + 1 query, one feature, decorated and undecorated metric", "4 C07"),
  "C10": ("bounded symbolic execution (z3) of the whole pipeline pre_compute_distance -> file -> _read_distances -> fit/predict next to the on-the-fly pipeline inside one symbolic path, on an asymmetric symbolic distance table with every injective choice of train/test rows",
          "datasets of <= 4 rows (quick) / <= 5 (thorough); supervised, semi-supervised, unsupervised; .txt and .csv; get_distances raw and normalised", "4 C10"),
+ "C18": ("bounded symbolic execution (z3) of split / split_with_index / merge with the RNG as a nondeterministic contract stub, and of the converter -> loader -> parser -> Subgraph(from_file) pipeline on a symbolic typed binary file through a virtual file system; exists-a-bijection oracle",
+         "split: n<=4 rows (quick) / n<=5 (thorough), symbolic percentage and seed, every permutation; convert: n<=3 / n<=4 samples, three formats", "4 C18"),
+ "C19": ("symbolic execution (z3) of save -> real pickle -> load -> predict on symbolically fitted twin models (symbolic scalars pickle their SMT term); loaded vs saved state compared term by term; plus concrete round trips of all 47 metrics x 4 models on the real package",
+         "4 model kinds x 2 weight branches, 3 (thorough: 4) training samples, one symbolic query", "4 C19"),
 }
 
 def main():
